@@ -4,6 +4,7 @@ def b_TrafficSign_create_node : CR.SrcW.Builder where
   kind := .node
   tag := "trafficSign"
   xsd := "trafficSign"
+  path := []
   parent := ""
   attrs := [("id", (.str "_.traffic_sign_id"))]
   gattrs := []
@@ -25,7 +26,8 @@ def b_TrafficSign_create_node_virtual : CR.SrcW.Builder where
   key := "TrafficSignXMLNode.create_node/virtual"
   kind := .node
   tag := "virtual"
-  xsd := ""
+  xsd := "trafficSign"
+  path := ["virtual"]
   parent := "TrafficSignXMLNode.create_node"
   attrs := []
   gattrs := []
@@ -38,7 +40,8 @@ def b_TrafficSign_create_node_position : CR.SrcW.Builder where
   key := "TrafficSignXMLNode.create_node/position"
   kind := .node
   tag := "position"
-  xsd := ""
+  xsd := "trafficSign"
+  path := ["position"]
   parent := "TrafficSignXMLNode.create_node"
   attrs := []
   gattrs := []
@@ -51,7 +54,8 @@ def b_TrafficSign_create_node_trafficSignElement : CR.SrcW.Builder where
   key := "TrafficSignXMLNode.create_node/trafficSignElement"
   kind := .node
   tag := "trafficSignElement"
-  xsd := ""
+  xsd := "trafficSign"
+  path := ["trafficSignElement"]
   parent := "TrafficSignXMLNode.create_node"
   attrs := []
   gattrs := []
@@ -67,7 +71,8 @@ def b_TrafficSign_create_node_trafficSignElement_additionalValue : CR.SrcW.Build
   key := "TrafficSignXMLNode.create_node/trafficSignElement/additionalValue"
   kind := .node
   tag := "additionalValue"
-  xsd := ""
+  xsd := "trafficSign"
+  path := ["trafficSignElement", "additionalValue"]
   parent := "TrafficSignXMLNode.create_node/trafficSignElement"
   attrs := []
   gattrs := []
@@ -80,7 +85,8 @@ def b_TrafficSign_create_node_trafficSignElement_trafficSignID : CR.SrcW.Builder
   key := "TrafficSignXMLNode.create_node/trafficSignElement/trafficSignID"
   kind := .node
   tag := "trafficSignID"
-  xsd := ""
+  xsd := "trafficSign"
+  path := ["trafficSignElement", "trafficSignID"]
   parent := "TrafficSignXMLNode.create_node/trafficSignElement"
   attrs := []
   gattrs := []
